@@ -2,26 +2,39 @@ mod case;
 mod comp;
 mod ctx;
 mod driver;
+#[cfg(feature = "e1")]
 mod engine;
+#[cfg(not(feature = "e1"))]
+mod e2;
 mod explore;
 mod gen;
 mod hist;
 mod minimise;
 mod node;
 mod oracle;
+mod outcome;
 mod props;
 mod report;
 mod rng;
 mod rt;
+#[cfg(feature = "e1")]
 mod sched;
 
+#[cfg(feature = "e1")]
 use std::time::Duration;
 
+#[cfg(feature = "e1")]
 fn usage() -> ! {
     eprintln!("usage: nxv check <ID> <quick|thorough> | nxv replay <file> | nxv selftest-determinism [n]");
     std::process::exit(2);
 }
 
+#[cfg(not(feature = "e1"))]
+fn main() {
+    e2::main();
+}
+
+#[cfg(feature = "e1")]
 fn main() {
     let args: Vec<String> = std::env::args().collect();
     if args.len() < 2 {
@@ -81,6 +94,7 @@ fn main() {
     }
 }
 
+#[cfg(feature = "e1")]
 /// Address-space limit for worker processes: a defect that allocates without
 /// bound is stopped by the allocator instead of exhausting the machine.
 fn limit_memory() {
